@@ -77,9 +77,9 @@ CLAIMS["C18"] = dict(
     text="Theorems in coq/Properties/Properties_C18.v for every request, byte stream and segmentation: an absolute http URI is forwarded as METHOD SP path SP HTTP/1.1 with all headers and a Host header when missing, port 80 by default; any other form is rejected and closes the connection; the sequence of forwarded requests does not depend on how the client's bytes were cut, one per request in order; what is read from the origin is written to the client unchanged; an unresolvable or empty lookup answers 503.")
 
 CLAIMS["C17"] = dict(
-    note=COMMON_NOTE + "Model: coq/Model/Apps.v (sim::socks_server/socks_connection as a program over the socket and resolver model: accept loop with one connection object per client, SOCKS5 greeting, request by IPv4 address or name read in the two steps of the repaired code, SOCKS4 request, CONNECT, BIND, reply formatting, relay loops, counters, close). PARTIAL: UDP ASSOCIATE is modelled up to its reply and the wait for EOF; the datagram path (on_read_udp: header stripping/wrapping, name mapping) is NOT modelled and not exercised, so that clause of the property is not decided. Relay transparency is proved per step (what a relay step reads is what it writes); its iteration over whole executions and the no-damage-to-other-connections clause rest on the correspondence under ASan/UBSan and the oracle. Three memory-safety defects of the parser were found and repaired (known_findings.json). C++ side runs under AddressSanitizer + UBSan + libstdc++ assertions.",
+    note=COMMON_NOTE + "Model: coq/Model/Apps.v (sim::socks_server/socks_connection as a program over the socket and resolver model: accept loop with one connection object per client, SOCKS5 greeting, request by IPv4 address or name read in the two steps of the repaired code, SOCKS4 request, CONNECT, BIND, reply formatting, relay loops, counters, close). UDP ASSOCIATE with its datagram path (IPv4 and host-name headers, name mapping through the UDP resolver, wrapping of replies, header validation) is modelled; datagrams from an IPv6 source are not (the C++ converts the source with to_v4()). PARTIAL: relay transparency is proved per step (what a relay step reads is what it writes); its iteration over whole executions and the no-damage-to-other-connections clause rest on the correspondence under ASan/UBSan and the oracle. Five defects (three memory-safety defects of the request parser, an exception thrown through run() by the UDP header parser, a relay that stopped receiving) were found and repaired (known_findings.json). C++ side runs under AddressSanitizer + UBSan + libstdc++ assertions.",
     tech="Coq proof (for every byte string: reads requested by the request parser fit the buffer, the counter array is indexed in bounds, reply codes per outcome, relay and async_read steps) + differential execution of model and real sim::socks_server under ASan/UBSan on valid negotiations and field-by-field mutations + independent reference of the negotiation in the oracle",
-    text="Theorems in coq/Properties/Properties_C17.v for every byte string and state: a read asked for by the request parser is 2..257 bytes at offset 5; a counted command is 1..3 (the array index is in bounds) and the parser is never undefined; counters change in the entry of the command only; reply = version, code (0/90 success, 5/91 refused, 4 unresolvable); each relay step writes the bytes it read; asio::async_read hands the handler exactly the bytes delivered. Refutation witness for the pinned tree (command byte outside 1..3).")
+    text="Theorems in coq/Properties/Properties_C17.v for every byte string and state: a read asked for by the request parser is 2..257 bytes at offset 5; a counted command is 1..3 (the array index is in bounds) and the parser is never undefined; counters change in the entry of the command only; reply = version, code (0/90 success, 5/91 refused, 4 unresolvable); each relay step writes the bytes it read; asio::async_read hands the handler exactly the bytes delivered; a UDP datagram with a truncated header is dropped and the relay keeps listening, a well-formed one is forwarded with the header stripped, a reply is wrapped in a header naming its source. Refutation witness for the pinned tree (command byte outside 1..3).")
 
 NOT_YET = "not built in this round: the server models (HttpServer/Socks/HttpProxy over abstract streams, DESIGN.md section 7) were not reached; no check is registered and nothing is claimed"
 
